@@ -221,11 +221,13 @@ class Ctx:
                 want[idx] if d.ndim else want[()], scale))
         return err
 
-    def equal(self, got, want, what):
+    def equal(self, got, want, what, nan_ok=False):
         got = np.asarray(got)
         want = np.asarray(want)
         if got.shape != want.shape:
             raise Violation("%s: shape %s, expected %s" % (what, got.shape, want.shape))
+        if nan_ok and got.dtype.kind in "fc" and want.dtype.kind in "fc" and np.array_equal(got, want, equal_nan=True):
+            return
         if not np.array_equal(got, want):
             bad = np.argwhere(got != want)
             b = tuple(int(i) for i in bad[0]) if bad.size else ()
